@@ -1,6 +1,7 @@
 (* C38 — Reported $SYS statistics match the broker's actual state.
    Statements only; proofs are [exact lemma] or vm_compute witnesses. *)
 From MV Require Import Base.Val Session.Pkt Session.Stats Session.StatsProofs.
+From MV Require Base.Sched Conc.Limit Session.StatsLimit Session.StatsLimitProofs.
 Open Scope Z_scope.
 
 (* [stats_ok s]: Info.ClientsConnected / Subscriptions / Retained / Inflight of the model state equal
@@ -25,6 +26,19 @@ Proof. exact stats_every_prefix. Qed.
    provided they are consistent) *)
 Theorem C38_step : forall (s : st) (o : op), inv_off 0 s -> inv_off 0 (step s o).
 Proof. exact step_inv. Qed.
+
+(* Concurrent connection attempts (the interleaving model of attachClient's limit check / slot
+   reservation / release, Conc/Limit.v): under EVERY schedule of any number of attempts, at every point
+   where no connection closed by a takeover still waits for its handler's teardown, the connected-clients
+   counter equals the number of established connections, and it is never negative.  A refused attempt
+   therefore leaves nothing behind in the counter. *)
+Theorem C38_connected_under_schedules :
+  forall (max : Z) (specs : list Conc.Limit.tspec) (sched : list Base.Sched.tid),
+  0 <= max ->
+  let c := Base.Sched.run Conc.Limit.exec sched (Conc.Limit.limit_threads max specs) in
+  Session.StatsLimit.quiet c = true ->
+  Session.StatsLimit.connected_ok c /\ 0 <= Conc.Limit.l_counter (Base.Sched.shared c).
+Proof. exact Session.StatsLimitProofs.connected_exact_when_quiet. Qed.
 
 (* non-vacuity: a history with subscription, QoS 1 fan-out, disconnection, takeover, acknowledgement
    and expiry drives every counter away from zero and back *)
@@ -51,3 +65,4 @@ Proof. vm_compute. repeat split. Qed.
 Print Assumptions C38_counters.
 Print Assumptions C38_every_quiescent_point.
 Print Assumptions C38_step.
+Print Assumptions C38_connected_under_schedules.
